@@ -7,6 +7,7 @@ package dprod
 
 import (
 	"context"
+	"net"
 	"encoding/json"
 	"errors"
 	"fmt"
@@ -94,7 +95,29 @@ func gen(seed int64, tier string) Scenario {
 		case x < 17:
 			sc.Steps = append(sc.Steps, Step{Op: "sleep", Ms: 1 + r.Intn(60)})
 		default:
-			sc.Steps = append(sc.Steps, Step{Op: "fault", Fault: []string{"dropresp", "killconn", "retriable", "fatal", "stall", "stall"}[r.Intn(6)], N: 1 + r.Intn(2), Ms: 20 + r.Intn(200)})
+			sc.Steps = append(sc.Steps, Step{Op: "fault", Fault: []string{"dropresp", "dropresp", "killconn", "retriable", "fatal", "stall", "stall", "moveleader", "refuse"}[r.Intn(9)], N: 1 + r.Intn(2), Ms: 20 + r.Intn(200)})
+		}
+	}
+	// realism constraints on the generated environment:
+	//  - a broker that appended a batch never answers its retry with a fatal error, so fabricated fatal codes are not mixed with
+	//    "handled, response lost" faults (a fabricated retriable code is harmless: the retry is answered as a duplicate);
+	//  - PurgeTopicsFromProducing documents that producing to the purged topic again may silently lose records (sequence
+	//    numbers restart under the same producer id), so nothing is produced to a topic after it was purged.
+	hasDrop := false
+	for _, st := range sc.Steps {
+		hasDrop = hasDrop || st.Fault == "dropresp"
+	}
+	purged := false
+	for i := range sc.Steps {
+		st := &sc.Steps[i]
+		if hasDrop && st.Fault == "fatal" {
+			st.Fault = "retriable"
+		}
+		if st.Op == "purge" && st.Topic == "t" {
+			purged = true
+		}
+		if st.Op == "produce" && purged && st.Topic == "t" {
+			st.Topic = "u"
 		}
 	}
 	return sc
@@ -141,6 +164,17 @@ func runScenario(t *testing.T, rec *sim.Recorder, sc Scenario) {
 		rec.Ev("reset", "maxRecs", sc.MaxRecs, "maxBytes", sc.MaxBytes, "scenario", string(js))
 		var vnet kfake.VirtualNetwork
 		chaos := sim.NewChaos()
+		var refuseMu sync.Mutex
+		refuseUntil := map[string]time.Time{} // broker address -> dials refused until
+		dial := func(ctx context.Context, network, addr string) (net.Conn, error) {
+			refuseMu.Lock()
+			until, ok := refuseUntil[addr]
+			refuseMu.Unlock()
+			if ok && time.Now().Before(until) {
+				return nil, &net.OpError{Op: "dial", Net: network, Err: errors.New("connection refused (injected)")}
+			}
+			return vnet.DialContext(ctx, network, addr)
+		}
 		c, err := kfake.NewCluster(kfake.NumBrokers(2), kfake.SeedTopics(2, "t"), kfake.ListenFn(chaos.Listen(vnet.Listen)), kfake.Ports(9092, 9093))
 		if err != nil {
 			t.Fatal(err)
@@ -154,7 +188,7 @@ func runScenario(t *testing.T, rec *sim.Recorder, sc Scenario) {
 		}
 		defer func() { kgo.VerifTrace = nil }()
 		opts := []kgo.Opt{
-			kgo.SeedBrokers(c.ListenAddrs()...), kgo.Dialer(vnet.DialContext), kgo.WithHooks(&hooks{rec}),
+			kgo.SeedBrokers(c.ListenAddrs()...), kgo.Dialer(dial), kgo.WithHooks(&hooks{rec}),
 			kgo.MaxBufferedRecords(sc.MaxRecs), kgo.ProducerLinger(time.Duration(sc.LingerMs) * time.Millisecond),
 			kgo.UnknownTopicRetries(1), kgo.RecordRetries(4), kgo.RetryBackoffFn(func(int) time.Duration { return 10 * time.Millisecond }),
 			kgo.RecordDeliveryTimeout(3 * time.Second), kgo.ProduceRequestTimeout(500 * time.Millisecond), kgo.RequestTimeoutOverhead(500 * time.Millisecond),
@@ -293,6 +327,18 @@ func runScenario(t *testing.T, rec *sim.Recorder, sc Scenario) {
 						}
 						return resp, nil, true
 					})
+				case "moveleader":
+					p := int32(n % 2)
+					to := int32(0)
+					if c.LeaderFor("t", p) == 0 {
+						to = 1
+					}
+					c.MoveTopicPartition("t", p, to)
+				case "refuse":
+					addrs := c.ListenAddrs()
+					refuseMu.Lock()
+					refuseUntil[addrs[n%len(addrs)]] = time.Now().Add(time.Duration(st.Ms) * time.Millisecond)
+					refuseMu.Unlock()
 				case "stall":
 					d := time.Duration(st.Ms) * time.Millisecond
 					c.ControlKey(int16(kmsg.Produce), func(kmsg.Request) (kmsg.Response, error, bool) {
@@ -325,6 +371,28 @@ func runScenario(t *testing.T, rec *sim.Recorder, sc Scenario) {
 			stuck = append(stuck, n)
 		}
 		mu.Unlock()
+		// what is in the log now, read by a fresh read_uncommitted consumer
+		entries := [][3]int64{}
+		{
+			cons, err := kgo.NewClient(kgo.SeedBrokers(c.ListenAddrs()...), kgo.Dialer(vnet.DialContext), kgo.ConsumeTopics("t"),
+				kgo.FetchIsolationLevel(kgo.ReadUncommitted()), kgo.FetchMaxWait(50*time.Millisecond))
+			if err == nil {
+				idle := 0
+				for idle < 3 {
+					ctx, cancel := context.WithTimeout(context.Background(), 300*time.Millisecond)
+					fs := cons.PollFetches(ctx)
+					cancel()
+					if fs.NumRecords() == 0 {
+						idle++
+						continue
+					}
+					idle = 0
+					fs.EachRecord(func(r *kgo.Record) { entries = append(entries, [3]int64{int64(r.Partition), r.Offset, int64(idOf(r))}) })
+				}
+				cons.Close()
+			}
+		}
+		rec.Ev("log", "entries", entries)
 		rec.Ev("quiesce", "bufferedRecords", cl.BufferedProduceRecords(), "bufferedBytes", cl.BufferedProduceBytes(), "stuck", stuck, "dropped", chaos.Dropped)
 		// unstick whatever hangs so that the bubble can end
 		mu.Lock()
